@@ -349,10 +349,10 @@ pub fn replay(args: &Args) {
                     }
                     if st == st_hi && hi > lo + 1 {
                         // FuzzyMonotone: the same answer holds for every slot inside
-                        if thorough && hi - lo <= 200 {
+                        if thorough && id == "ABC" && hi - lo <= 200 {
                             cases.extend((lo + 1..hi).map(|s| (s, 0, st)));
                         } else {
-                            for _ in 0..(if thorough { 24 } else { 2 }) {
+                            for _ in 0..(if thorough { 4 } else { 2 }) {
                                 cases.push((rng.range(lo + 1, hi - 1), 0, st));
                             }
                         }
